@@ -4184,7 +4184,11 @@ class State:
                 max_bet_index = max(
                     self.player_indices,
                     key=lambda i: (
-                        (self.bets[i] * sign(blinds_or_straddles[i]), i)
+                        (
+                            self.bets[i]
+                            * max(sign(blinds_or_straddles[i]), 0),
+                            i,
+                        )
                     ),
                 )
                 self.opener_index = (max_bet_index + 1) % self.player_count
